@@ -41,7 +41,7 @@ func TestVerifC43Dedup(t *testing.T) {
 
 func c43DedupSequentialLane(c *kit.Ctx, ra *ruleAcc) {
 	ra.add("sequential", "sequential histories of CheckIncomingMessage on filters with 2..8 buckets of 1..512 entries (incl. the production 5x512): fresh messages, repeats at PRNG-chosen distances from 0 to beyond the retention window (clustered around (buckets-1)*bucketSize), the same payload under the other dedup-safe tag, payloads that are prefixes/extensions of each other, pure lookups (add=false) and non-promoting checks; the reference is a map from (tag,payload) to the call index of its last refresh. distinct = (buckets, bucketSize, distance class, flags, result)")
-	ncases := c.N(300, 8000)
+	ncases := c.N(300, 5000)
 	type shape struct{ b, s int }
 	shapes := []shape{{5, 512}, {2, 1}, {2, 2}, {2, 3}, {3, 1}, {3, 2}, {3, 8}, {5, 4}, {8, 3}, {4, 64}, {3, 128}, {2, 512}}
 	for i := 0; i < ncases && c.Violations() < 20; i++ {
